@@ -97,6 +97,19 @@ def special_bodies(rng):
                 m.fields = [(5, ('b', 'u'), 9), (8, ('b', 'g'), b"v")]
                 m.body_types = [ty]; m.body = [val]
                 out.append(("variant-chain-%d-over-%s" % (k, name), m.marshal()))
+        # headers far larger than usual: known fields that lie beyond 32 KiB and 64 KiB of header (an unknown field, or a very long
+        # path, in front of them), and a field given twice with 64 KiB in between
+        for name, front, both in (("unknown-ay-65540", [(200, ('a', ('b', 'y')), [0x2f, 0x65] * 32770)], False),
+                                  ("unknown-s-33000", [(201, ('b', 's'), b"/evil\0" * 5500)], True), ("long-path-40000", [(1, ('b', 'o'), b"/" + b"p" * 40000)], False)):
+            if not both and not le:
+                continue        # (the model takes seconds over a 64 KiB header: the largest ones in one byte order only)
+            m = wiregen.Message(); m.le = le; m.mtype = 1; m.serial = 7
+            m.fields = list(front) + ([] if front[0][0] == 1 else [(1, ('b', 'o'), b"/x")]) + [(3, ('b', 's'), b"Ping"), (2, ('b', 's'), b"a.b")]
+            out.append(("big-header-" + name, m.marshal()))
+            if both:
+                m2 = wiregen.Message(); m2.le = le; m2.mtype = 1; m2.serial = 8
+                m2.fields = [(3, ('b', 's'), b"First")] + list(front) + [(1, ('b', 'o'), b"/x"), (3, ('b', 's'), b"Second")]
+                out.append(("big-header-duplicate-member-" + name, m2.marshal()))
         # structs 31..33 deep, arrays 31..33 deep (signature limits), mixed 32+32
         for k in (31, 32, 33):
             ty = ('b', 'y'); val = 1
